@@ -164,7 +164,23 @@ def run(ctx: Ctx):
             ok = idx_ok and init_ok and order_ok
             why = f"action=actions[..., {ctr}]: {idx_ok}; {ctr} starts at 0: {init_ok}; incremented once, after env.step: {order_ok}"
     ctx.ob("C11.c", "ConstructivePolicy.forward:replay-index", ok, cp.loc, why, construct="ConstructivePolicy.forward:replay-index")
-    forced = any(isinstance(n, ast.If) and "actions is not None" in ast.unparse(n.test) and any(isinstance(b, ast.Assign) and ast.unparse(b) == "decode_type = 'evaluate'" for b in n.body) for n in ast.walk(cp.node))
+    itf = vg.Interp(ctx.repo, cp.cls, inline_policy=lambda f, a: False)
+    frf = itf.run_function(cp)
+    from ..units import roots_of as _roots
+    forced = False
+    seen_f = set()
+    for r_ in _roots(itf, frf):
+        for n in vg.walk(r_):
+            if n.id in seen_f:
+                continue
+            seen_f.add(n.id)
+            if (nf._fn(n) or "").endswith(":get_decoding_strategy") and len(n.args) >= 2:
+                d = n.args[1]
+                if d.op in ("phi", "ifexp"):
+                    t, a_, b_ = d.args
+                    given = t.op == "isnot" and t.args[0].op == "param" and t.args[0].args[0] == "actions" and vg.is_const(t.args[1], None)
+                    absent = t.op == "is" and t.args[0].op == "param" and t.args[0].args[0] == "actions" and vg.is_const(t.args[1], None)
+                    forced = forced or (given and vg.is_const(a_, "evaluate")) or (absent and vg.is_const(b_, "evaluate"))
     ctx.ob("C11.c", "ConstructivePolicy.forward:evaluate-forced", forced, cp.loc, "decode_type = 'evaluate' whenever actions are given", construct="ConstructivePolicy.forward:evaluate")
     reass = [n for n in ast.walk(cp.node) if isinstance(n, (ast.Assign, ast.AugAssign)) and any(isinstance(t, ast.Name) and t.id == "decoding_kwargs" for t in (n.targets if isinstance(n, ast.Assign) else [n.target]))]
     gds = [n for n in ast.walk(cp.node) if isinstance(n, ast.Call) and ast.unparse(n.func) == "get_decoding_strategy"]
@@ -197,35 +213,64 @@ def run(ctx: Ctx):
     # ---- e: PPO
     ppo = ctx.repo.get_function(PPO, "PPO.shared_step")
     ctx.fn(ppo)
-    withs = [n for n in ast.walk(ppo.node) if isinstance(n, ast.With) and "no_grad" in ast.unparse(n.items[0].context_expr)]
-    old_in_nograd = any(isinstance(b, ast.Assign) and "self.policy(" in ast.unparse(b.value) for w in withs for b in w.body)
-    sets = {ast.unparse(n.args[0]).strip("'\""): ast.unparse(n.args[1]) for n in ast.walk(ppo.node) if isinstance(n, ast.Call) and isinstance(n.func, ast.Attribute) and n.func.attr == "set" and len(n.args) == 2}
-    key_ok = sets.get("logprobs") == "out['log_likelihood']" and sets.get("action") == "out['actions']"
+    from ..units import roots_of
     it5 = vg.Interp(ctx.repo, ppo.cls, inline_policy=lambda f, a: False)
     fr5 = it5.run_function(ppo)
-    ratio = None
-    for f in it5.call_frames:
-        v = f.locals.get("ratio")
-        if isinstance(v, vg.S):
-            ratio = v
-    r_ok, why_r = False, "ratio not found"
-    if ratio is not None:
-        exps = [n for n in vg.walk(ratio) if nf._fn(n) == "torch.exp"]
-        if exps:
-            p = nf.poly(exps[0].args[1])
+    sets = {}
+    for e in it5.events:
+        if e.kind == "methcall" and e.data[1] == "set" and len(e.data[2]) == 2 and e.data[2][0].op == "const":
+            sets[e.data[2][0].args[0]] = (e.data[0], e.data[2][1])
+
+    def unng(x):
+        while isinstance(x, vg.S) and x.op == "nograd":
+            x = x.args[0]
+        return x
+
+    def policy_call(x):
+        x = unng(x)
+        return isinstance(x, vg.S) and x.op == "meth" and x.args[0].op == "self" and x.args[1] == "policy"
+    old_lp, old_ac = sets.get("logprobs"), sets.get("action")
+    key_ok = old_in_nograd = False
+    old_call = None
+    if old_lp and old_ac:
+        vl, va = old_lp[1], old_ac[1]
+        key_ok = vl.op == "sub" and va.op == "sub" and vg.is_const(vl.args[1], "log_likelihood") and vg.is_const(va.args[1], "actions") and vl.args[0] is va.args[0] \
+            and policy_call(vl.args[0]) and old_lp[0] is old_ac[0]
+        old_in_nograd = key_ok and vl.args[0].op == "nograd"
+        old_call = unng(vl.args[0]) if key_ok else None
+    # the replay: a second policy call (with gradients) that is fed `<mini-batch>['action']`, and the ratio built from its log-likelihood
+    seen_, calls, exps = set(), [], []
+    for r_ in roots_of(it5, fr5):
+        for n in vg.walk(r_):
+            if n.id in seen_:
+                continue
+            seen_.add(n.id)
+            if policy_call(n) and unng(n) is not old_call and n.op != "nograd":
+                calls.append(n)
+            if nf._fn(n) == "torch.exp":
+                exps.append(n)
+    kw_ok, r_ok, why_r = False, False, "ratio exp(sum(new log-likelihood) - stored log-prob) not found"
+    replay = [c for c in calls if any(isinstance(k, vg.S) and k.op == "kw" and k.args[0] == "actions" for k in c.args[2:])]
+    if len(replay) == 1:
+        rc = replay[0]
+        av = [k.args[1] for k in rc.args[2:] if isinstance(k, vg.S) and k.op == "kw" and k.args[0] == "actions"][0]
+        kw_ok = av.op == "sub" and vg.is_const(av.args[1], "action")
+        mb = av.args[0] if kw_ok else None
+        for ex in exps:
+            p = nf.poly(ex.args[1])
             mon = p.monos()
             pos = [fs for c, fs in mon if c == 1]
             neg = [fs for c, fs in mon if c == -1]
-            if len(mon) == 2 and len(pos) == 1 and len(neg) == 1:
+            if len(mon) == 2 and len(pos) == 1 and len(neg) == 1 and len(pos[0]) == 1 and len(neg[0]) == 1:
                 new, old = pos[0][0][0], neg[0][0][0]
-                new_ok = new.op == "meth" and new.args[1] == "sum" and "log_likelihood" in vg.show(new, 6)
-                old_ok = old.op == "sub" and vg.is_const(old.args[1], "logprobs")
-                r_ok = new_ok and old_ok
-                why_r = f"ratio = exp({p.show(3)})"
-    kw_ok = any(isinstance(n, ast.Call) and ast.unparse(n.func) == "self.policy" and any(k.arg == "actions" and ast.unparse(k.value) == "sub_td['action']" for k in n.keywords) for n in ast.walk(ppo.node))
-    ctx.ob("C11.e", "PPO.shared_step:old-ll-no-grad", old_in_nograd, ppo.loc, "old rollout is produced inside torch.no_grad()", construct="PPO.shared_step:no-grad")
-    ctx.ob("C11.e", "PPO.shared_step:stored-keys", key_ok, ppo.loc, f"td.set('logprobs', {sets.get('logprobs')}), td.set('action', {sets.get('action')})", construct="PPO.shared_step:stored-keys")
-    ctx.ob("C11.e", "PPO.shared_step:replay-actions", kw_ok, ppo.loc, "policy(..., actions=sub_td['action'])", construct="PPO.shared_step:replay-actions")
+                new_ok = new.op == "meth" and new.args[1] == "sum" and any(n.op == "sub" and vg.is_const(n.args[1], "log_likelihood") and nf.norm(n.args[0]) is nf.norm(rc) for n in vg.walk(new))
+                old_ok = old.op == "sub" and vg.is_const(old.args[1], "logprobs") and mb is not None and nf.norm(old.args[0]) is nf.norm(mb)
+                if new_ok and old_ok:
+                    r_ok = True
+                why_r = f"ratio = exp({p.show(3)}): new log-likelihood of the replay call: {new_ok}; old log-prob read from the same mini-batch under 'logprobs': {old_ok}"
+    ctx.ob("C11.e", "PPO.shared_step:old-ll-no-grad", old_in_nograd, ppo.loc, "the rollout whose log-likelihood / actions are stored is produced inside torch.no_grad()", construct="PPO.shared_step:no-grad")
+    ctx.ob("C11.e", "PPO.shared_step:stored-keys", key_ok, ppo.loc, "td.set('logprobs', out['log_likelihood']) and td.set('action', out['actions']) store items of ONE policy rollout on one TensorDict", construct="PPO.shared_step:stored-keys")
+    ctx.ob("C11.e", "PPO.shared_step:replay-actions", kw_ok, ppo.loc, "the replay policy call is fed actions=<mini-batch>['action'] (the key the rollout's actions were stored under)", construct="PPO.shared_step:replay-actions")
     ctx.ob("C11.e", "PPO.shared_step:ratio", r_ok, ppo.loc, why_r, construct="PPO.shared_step:ratio")
     # Evaluate._step
     ev = ctx.repo.get_class(DEC, "Evaluate")
